@@ -29,12 +29,8 @@ class Locked:
 # translators run before every build: (tool, properties whose check treats its TRANSLATION-ERRORs as broken obligations;
 # None = every property).  Every tool runs on every check run, so that lean/SFModel/Gen is always that of the current source.
 TRANSLATORS = (('py2lean.py', None), ('py2lean_dtype.py', None), ('py2lean_window.py', ('C13',)),
-<<<<<<< HEAD
                ('py2lean_targets.py', ('C14',)), ('py2lean_locmap.py', ('C02', 'C04', 'C05')),
-               ('py2lean_reduce.py', ('C15',)))
-=======
-               ('py2lean_targets.py', ('C14',)), ('py2lean_locmap.py', ('C02', 'C04', 'C05')), ('py2lean_bus.py', ('C17',)))
->>>>>>> e8
+               ('py2lean_reduce.py', ('C15',)), ('py2lean_bus.py', ('C17',)))
 
 
 def regen(repo='/repo', prop=None):
